@@ -10,6 +10,8 @@ package verifharness
 import (
 	"context"
 	"fmt"
+	"os"
+	"os/exec"
 	"runtime"
 	"sort"
 	"strconv"
@@ -558,4 +560,77 @@ func runPxScenario(t *testing.T, idx int, kind string, sc pxScenario, em *Emitte
 		Coq: fmt.Sprintf("%s %d %d %d %s %s", map[bool]string{false: "CProxy", true: "CProxyLoose"}[kind == "proxy-loose"],
 			pxProxyName, buf, sc.Icp, coqList(coqSteps), coqList(coqObs))})
 	em.Marker("end", idx)
+}
+
+// ---------------------------------------------------------------- sharding
+
+// pxSharded re-executes the current test binary as nShards child processes, each running the jobs whose index
+// is congruent to its shard number, and merges their output files into -out (same scheme as cl_common.go's
+// sharded). It returns (shard, n, true) in a child - and in an unsharded run - and (0, 0, false) in the parent
+// once the children are done. Case indices are global, so a replay (-only idx) runs unsharded.
+func pxSharded(t *testing.T, testName string, nShards int) (int, int, bool) {
+	if s := os.Getenv("PX_SHARD"); s != "" {
+		var i, n int
+		fmt.Sscanf(s, "%d/%d", &i, &n)
+		return i, n, true
+	}
+	if *flagOut == "" || *flagOnly >= 0 {
+		return 0, 1, true
+	}
+	var wg sync.WaitGroup
+	outs := make([]string, nShards)
+	errs := make([]error, nShards)
+	for i := 0; i < nShards; i++ {
+		outs[i] = fmt.Sprintf("%s.shard%d", *flagOut, i)
+		os.Remove(outs[i])
+		wg.Add(1)
+		go func(i int) {
+			defer wg.Done()
+			cmd := exec.Command(os.Args[0], "-test.run", "^"+testName+"$", "-test.timeout", "0", "-out", outs[i],
+				"-seed", fmt.Sprint(*flagSeed), "-tier", *flagTier, "-from", fmt.Sprint(*flagFrom))
+			cmd.Env = append(os.Environ(), fmt.Sprintf("PX_SHARD=%d/%d", i, nShards))
+			out, err := cmd.CombinedOutput()
+			if err != nil {
+				o := string(out)
+				if len(o) > 1500 {
+					o = o[len(o)-1500:]
+				}
+				errs[i] = fmt.Errorf("shard %d: %v: %s", i, err, o)
+			}
+		}(i)
+	}
+	wg.Wait()
+	f, err := os.OpenFile(*flagOut, os.O_CREATE|os.O_WRONLY|os.O_APPEND, 0o644)
+	if err != nil {
+		t.Fatal(err)
+	}
+	for i := 0; i < nShards; i++ {
+		if b, err := os.ReadFile(outs[i]); err == nil {
+			f.Write(b)
+		}
+		os.Remove(outs[i])
+	}
+	f.Close()
+	for _, e := range errs {
+		if e != nil {
+			t.Errorf("%v", e)
+		}
+	}
+	return 0, 0, false
+}
+
+// pxRunJobs runs the jobs (one per case index) of a test, sharded.
+func pxRunJobs(t *testing.T, testName string, jobs []func(idx int, em *Emitter)) {
+	shard, n, run := pxSharded(t, testName, 8)
+	if !run {
+		return
+	}
+	em := NewEmitter()
+	defer em.Close()
+	for idx, job := range jobs {
+		if idx%n != shard || !want(idx) {
+			continue
+		}
+		job(idx, em)
+	}
 }
